@@ -10,6 +10,7 @@ import (
 	"math"
 	"os"
 	"path/filepath"
+	"strconv"
 	"strings"
 
 	"gorgonia.org/tensor"
@@ -155,18 +156,26 @@ func payload(t tensor.Tensor) []string {
 		}
 	case bool:
 		b2i(d)
-	case []string:
-		for i := range d {
-			add("%d", i) // strings only ever move: opaque tokens
+	case []string: // strings and complex numbers only ever move: they carry an integer token
+		for _, x := range d {
+			n, _ := strconv.ParseInt(x, 10, 64)
+			add("%d", n)
 		}
+	case string:
+		n, _ := strconv.ParseInt(d, 10, 64)
+		add("%d", n)
 	case []complex64:
-		for i := range d {
-			add("%d", i)
+		for _, x := range d {
+			add("%d", int64(real(x)))
 		}
+	case complex64:
+		add("%d", int64(real(d)))
 	case []complex128:
-		for i := range d {
-			add("%d", i)
+		for _, x := range d {
+			add("%d", int64(real(x)))
 		}
+	case complex128:
+		add("%d", int64(real(d)))
 	default:
 		panic(fmt.Sprintf("payload: unsupported %T", d))
 	}
